@@ -1,11 +1,11 @@
 (* C07 executable model.  tree_weight / tree_add / tree_inverse_weight(_eq) /
    tree_sum / tree_mean / tree_clip_by_global_norm are the definitions translated on
-   every run from fedjax/core/tree_util.py (gen/Gen_tree_util.v); a pytree is its
-   flattened coordinate list over NanQ.t.  Hand-written here: mean_aggregator.apply
-   (drops the client id, calls tree_mean), the ownership script of tree_sum / tree_mean
+   every run from fedjax/core/tree_util.py (gen/Gen_tree_util.v), mean_aggregator.apply from
+   fedjax/aggregators/aggregator.py (gen/Gen_aggregator.v); a pytree is its flattened
+   coordinate list over NanQ.t.  Hand-written here: the ownership script of tree_sum / tree_mean
    over a small store, and the correspondence predicate. *)
 From Coq Require Import ZArith QArith List Bool.
-From FV Require Import Common.ListX Common.CMonoid Common.NanQ Common.QVec Common.WMean gen.Gen_tree_util.
+From FV Require Import Common.ListX Common.CMonoid Common.NanQ Common.QVec Common.WMean gen.Gen_tree_util gen.Gen_aggregator.
 Import ListNotations.
 Local Open Scope Q_scope.
 
@@ -13,11 +13,7 @@ Notation tree := (list NanQ.t) (only parsing).
 
 Definition lift_client (c : list Q * Q) : tree * NanQ.t := (vlift (fst c), Some (snd c)).
 
-(* fedjax/aggregators/aggregator.py mean_aggregator().apply: extract (params, weight), tree_mean *)
-Definition extract_params_and_weight {I} (c : I * tree * NanQ.t) : tree * NanQ.t :=
-  let '(_, param, weight) := c in (param, weight).
-Definition mean_aggregator_apply {I S} (clients : list (I * tree * NanQ.t)) (state : S) : option tree * S :=
-  (tree_mean (map extract_params_and_weight clients), state).
+(* mean_aggregator().apply and its extract_params_and_weight are translated (gen/Gen_aggregator.v) *)
 
 (* clipping with the global norm supplied (sqrt is not modelled): `norm` is the value of
    tree_l2_norm(pytree); the translated function is used as it is *)
@@ -90,7 +86,7 @@ Definition C07_run (c : C07_case) : option tree :=
 (* side condition checked inside Coq: the norm handed to the model is the norm *)
 Definition C07_case_ok (c : C07_case) : bool :=
   match c with
-  | KClip x _ norm => Qle_bool 0 norm && Qeq_bool (norm * norm) (sumsq x)
+  | KClip x _ norm => Qle_bool 0 norm && NanQ.same (tree_l2_squared (vlift x)) (Some (norm * norm))
   | _ => true
   end.
 
